@@ -1,4 +1,5 @@
 import TFV.Properties.Gray
+import TFV.Properties.Src.GrayKernels
 #print axioms TFV.Gray.C10_bits_roundtrip
 #print axioms TFV.Gray.C10_bits_roundtrip'
 #print axioms TFV.Gray.C10_bits_lt
@@ -14,3 +15,11 @@ import TFV.Properties.Gray
 #print axioms TFV.Gray.C10_inverse_length
 #print axioms TFV.Gray.C10_row_roundtrip
 #print axioms TFV.Gray.C10_bitsFromH
+#print axioms TFV.Properties.Src.GrayKernels.C10_src_gray_to_bit
+#print axioms TFV.Properties.Src.GrayKernels.C10_src_gray_to_bit_shape
+#print axioms TFV.Properties.Src.GrayKernels.C10_src_bit_to_int
+#print axioms TFV.Properties.Src.GrayKernels.C10_src_bit_to_gray
+#print axioms TFV.Properties.Src.GrayKernels.C10_src_gray_roundtrip
+#print axioms TFV.Properties.Src.GrayKernels.C10_src_gray_roundtrip'
+#print axioms TFV.Properties.Src.GrayKernels.C10_src_decode_bin
+#print axioms TFV.Properties.Src.GrayKernels.C10_src_decode_gray
